@@ -307,6 +307,29 @@ def native_sim(code, em, dname, p, seed):
     return None
 
 
+def native_shared_model(dname, cname, size_a, size_b, defo, direction, p, seed):
+    """a noise-model object shared between simulations (as get_simulations does for `ranges`): trials on code B after the model was used on code A must be
+    bit-identical to trials with a fresh model object"""
+    from panqec.simulation._direct_simulation import run_once
+    from panqec.error_models import PauliErrorModel
+    a, b = BC.make(cname, size_a), BC.make(cname, size_b)
+    shared = PauliErrorModel(*direction, deformation_name=defo)
+    deca, _ = BD.build(dname, a, direction=direction, noise_deformation=defo)
+    with contextlib.redirect_stdout(io.StringIO()):
+        for k in range(3):
+            run_once(a, shared, deca, p, rng=np.random.default_rng(k))
+    fresh = PauliErrorModel(*direction, deformation_name=defo)
+    for k in range(6):
+        decb1, _ = BD.build(dname, b, direction=direction, noise_deformation=defo)
+        decb2, _ = BD.build(dname, b, direction=direction, noise_deformation=defo)
+        with contextlib.redirect_stdout(io.StringIO()):
+            r1 = run_once(b, shared, decb1, p, rng=np.random.default_rng(seed + k))
+            r2 = run_once(b, fresh, decb2, p, rng=np.random.default_rng(seed + k))
+        if not np.array_equal(r1['error'], r2['error']) or r1['success'] != r2['success']:
+            return 'with the same seed, a trial on %s%s differs when the noise-model object was used on %s%s before (shared model vs fresh model)' % (cname, size_b, cname, size_a)
+    return None
+
+
 def native_calibration(code, em, dname, p):
     """exact failure probability sum_e P(e) fail(e) by enumeration vs the same sum accumulated from run_once driven by an enumerating stub model"""
     from panqec.simulation._direct_simulation import run_once
@@ -429,6 +452,15 @@ def bounded(tier, seed):
         samples.append(dict(calibration=dict(decoder=d, code=cname, size=size, n=code.n, errors=4 ** code.n), ok=why is None))
         if why:
             viol.append(dict(obligation='C11.bounded.calibration[%s]' % d, input=dict(decoder=d, code=cname, size=list(size)), detail=why))
+    for d, cname, sa, sb, defo in [('BeliefPropagationOSDDecoder', 'RotatedPlanar2DCode', (2, 3), (3, 2), 'XZZX'), ('BeliefPropagationOSDDecoder', 'Toric2DCode', (2, 4), (4, 2), 'XZZX'),
+                                    ('BeliefPropagationOSDDecoder', 'Toric3DCode', (2, 2, 3), (2, 3, 2), 'XZZX'), ('MatchingDecoder', 'Planar2DCode', (2, 3), (3, 2), None)]:
+        try:
+            why = native_shared_model(d, cname, sa, sb, defo, (0.1, 0.1, 0.8), 0.2, seed)
+        except Exception as e:      # noqa
+            why = 'raises %s: %s' % (type(e).__name__, str(e)[:150])
+        ev += 1; nt.add(('shared', d, cname, sa, sb))
+        if why:
+            viol.append(dict(obligation='C11.bounded.shared_model[%s]' % d, input=dict(decoder=d, code=cname, size_a=list(sa), size_b=list(sb), deformation=defo), detail=why))
     for d, cname, size in [('MatchingDecoder', 'Toric2DCode', (3, 3)), ('SweepMatchDecoder', 'Toric3DCode', (2, 2, 2)), ('BeliefPropagationOSDDecoder', 'XCubeCode', (2, 2, 2))]:
         why = native_fresh_process(d, cname, size, seed)
         ev += 1
